@@ -25,6 +25,7 @@ use std::time::{Duration, SystemTime};
 use h_wallet::chain::{Chain, Keys, OutReq, Pool, Source, TxReq};
 use h_wallet::util::{NdjsonWriter, guarded, quiet_panics, seed_from_env};
 use h_wallet::wallet::network;
+use incrementalmerkletree::Hashable as _;
 use rand::{Rng, SeedableRng, seq::SliceRandom};
 use rand_chacha::ChaChaRng;
 use rusqlite::{Connection, ffi, types::ValueRef};
@@ -33,6 +34,7 @@ use serde_json::{Value, json};
 use zcash_client_backend::data_api::{
     AccountBirthday, AccountPurpose, OutputLockStore, WalletCommitmentTrees, WalletRead, WalletWrite,
     chain::{ChainState, CommitmentTreeRoot, scan_cached_blocks},
+    TransactionStatus,
     scanning::ScanPriority,
     wallet::ConfirmationsPolicy,
 };
@@ -434,7 +436,11 @@ struct State {
     base: u32,
     scanned_to: u32,
     tip: u32,
+    /// notes locked in the pre-state (owner PRE_OWNER)
+    locked: Vec<u32>,
 }
+
+const PRE_OWNER: [u8; 32] = [0x50; 32];
 
 type Outcome = Result<Result<String, String>, String>;
 type OpFn = Box<dyn Fn(&mut Connection, &State) -> Outcome>;
@@ -554,9 +560,17 @@ fn build_state(dir: &Path, name: &str, seed: u64, ironwood: bool, wal: bool, blo
             scan_cached_blocks(&net, &Source(&chain), &mut db, BlockHeight::from(base + 1), &st, scan as usize).expect("scan");
         }
     }
+    let mut st = State { name: name.to_string(), file: file.clone(), net, wal, chain, account, base, scanned_to: base + scan, tip, locked: vec![] };
+    // two notes are locked already
+    let pre: Vec<u32> = lockable_notes(&st).into_iter().rev().take(2).collect();
+    if pre.len() == 2 {
+        let refs: Vec<OutputRef> = pre.iter().map(|n| output_ref(&st.chain, *n)).collect();
+        wdb(&mut conn, net, seed).lock_outputs(&refs, LockOwner::new(PRE_OWNER), BlockHeight::from(tip + 20)).expect("pre-state locks");
+        st.locked = pre;
+    }
     drop(conn);
     assert!(side_files(&file).iter().all(|p| !p.exists()), "pre-state database closed cleanly");
-    State { name: name.to_string(), file, net, wal, chain, account, base, scanned_to: base + scan, tip }
+    st
 }
 
 fn scan_op(n: usize) -> OpDef {
@@ -611,7 +625,86 @@ fn ops_for(s: &State) -> Vec<OpDef> {
         let h = s.base - 5;
         cls(guarded(|| wdb(c, s.net, 13).truncate_to_height(BlockHeight::from(h))), |h| format!("{}", u32::from(*h)))
     }));
-    let notes = lockable_notes(s);
+    v.push(opdef("create_account", |c, s| {
+        let birthday = AccountBirthday::from_parts(ChainState::empty(BlockHeight::from(s.base + 3), BlockHash([0; 32])), None);
+        cls(guarded(|| wdb(c, s.net, 15).create_account("second", &SecretVec::new(vec![9u8; 32]), &birthday, None)), |_| String::new())
+    }));
+    v.push(opdef("import_ufvk", |c, s| {
+        let birthday = AccountBirthday::from_parts(ChainState::empty(BlockHeight::from(s.base + 2), BlockHash([0; 32])), None);
+        let usk = zcash_keys::keys::UnifiedSpendingKey::from_seed(&s.net, &[0x33u8; 32], zip32::AccountId::ZERO).expect("usk");
+        let ufvk = usk.to_unified_full_viewing_key();
+        cls(guarded(|| wdb(c, s.net, 16).import_account_ufvk("imported", &ufvk, &birthday, AccountPurpose::ViewOnly, None)), |_| String::new())
+    }));
+    v.push(opdef("import_hd", |c, s| {
+        let birthday = AccountBirthday::from_parts(ChainState::empty(BlockHeight::from(s.base + 2), BlockHash([0; 32])), None);
+        cls(
+            guarded(|| wdb(c, s.net, 16).import_account_hd("hd", &SecretVec::new(vec![0x44u8; 32]), zip32::AccountId::try_from(3).unwrap(), &birthday, None)),
+            |_| String::new(),
+        )
+    }));
+    v.push(opdef("delete_account", |c, s| cls(guarded(|| wdb(c, s.net, 17).delete_account(s.account)), |_| String::new())));
+    v.push(opdef("queue_rescans", |c, s| {
+        let r1 = BlockHeight::from(s.base + 2)..BlockHeight::from(s.base + 5);
+        let r2 = BlockHeight::from(s.base + 7)..BlockHeight::from(s.base + 9);
+        cls(guarded(|| wdb(c, s.net, 18).queue_rescans(nonempty::NonEmpty::from((r1, vec![r2])), ScanPriority::FoundNote)), |_| String::new())
+    }));
+    v.push(opdef("prune_queue", |c, s| {
+        let h = s.scanned_to + 6;
+        cls(guarded(|| wdb(c, s.net, 18).prune_scan_queue_below(BlockHeight::from(h), Some(ScanPriority::FoundNote))), |n| format!("{n}"))
+    }));
+    v.push(opdef("next_address", |c, s| {
+        cls(
+            guarded(|| wdb(c, s.net, 19).get_next_available_address(s.account, zcash_keys::keys::UnifiedAddressRequest::SHIELDED)),
+            |a| format!("{}", a.is_some()),
+        )
+    }));
+    // a transaction the wallet knows (it received a note in it): un-mine it, then mine it elsewhere
+    if let Some(txid) = s.chain.blocks.range(..=s.scanned_to).flat_map(|(_, b)| b.txs.iter()).find(|t| t.outs.iter().any(|o| o.note > 0)).map(|t| t.txid) {
+        v.push(opdef("tx_status_unmined", move |c, s| {
+            cls(guarded(|| wdb(c, s.net, 20).set_transaction_status(TxId::from_bytes(txid), TransactionStatus::NotInMainChain)), |_| String::new())
+        }));
+        v.push(opdef("tx_status_mined", move |c, s| {
+            let h = s.scanned_to - 1;
+            cls(guarded(|| wdb(c, s.net, 20).set_transaction_status(TxId::from_bytes(txid), TransactionStatus::Mined(BlockHeight::from(h)))), |_| String::new())
+        }));
+    }
+    v.push(opdef("subtree_roots", |c, s| {
+        let roots: Vec<CommitmentTreeRoot<sapling::Node>> = (0..3u32)
+            .map(|i| CommitmentTreeRoot::from_parts(BlockHeight::from(s.base + 1 + i), sapling::Node::empty_root(incrementalmerkletree::Level::from(16 + i as u8))))
+            .collect();
+        cls(guarded(|| wdb(c, s.net, 21).put_sapling_subtree_roots(1, &roots)), |_| String::new())
+    }));
+    v.push(opdef("subtree_roots_orchard", |c, s| {
+        use incrementalmerkletree::Hashable;
+        let roots: Vec<CommitmentTreeRoot<orchard::tree::MerkleHashOrchard>> = (0..2u32)
+            .map(|i| CommitmentTreeRoot::from_parts(BlockHeight::from(s.base + 1 + i), orchard::tree::MerkleHashOrchard::empty_root(incrementalmerkletree::Level::from(16 + i as u8))))
+            .collect();
+        cls(guarded(|| wdb(c, s.net, 21).put_orchard_subtree_roots(1, &roots)), |_| String::new())
+    }));
+    v.push(opdef("rewind", |c, s| {
+        let st = s.chain.state_at(s.scanned_to - 3);
+        cls(guarded(|| wdb(c, s.net, 22).rewind_to_chain_state(st, std::collections::HashSet::new())), |_| String::new())
+    }));
+    v.push(opdef("rewind_reset_birthday", |c, s| {
+        // below the account's birthday, acknowledged: birthdays are lowered
+        let st = ChainState::empty(BlockHeight::from(s.base - 2), BlockHash([0; 32]));
+        let acct = s.account;
+        cls(guarded(|| wdb(c, s.net, 22).rewind_to_chain_state(st, std::collections::HashSet::from([acct]))), |_| String::new())
+    }));
+    v.push(opdef("rewind_refused", |c, s| {
+        let st = ChainState::empty(BlockHeight::from(s.base - 2), BlockHash([0; 32]));
+        cls(guarded(|| wdb(c, s.net, 22).rewind_to_chain_state(st, std::collections::HashSet::new())), |_| String::new())
+    }));
+    v.push(opdef("truncate_chain_state", |c, s| {
+        let st = s.chain.state_at(s.scanned_to - 2);
+        cls(guarded(|| wdb(c, s.net, 23).truncate_to_chain_state(st)), |_| String::new())
+    }));
+    if let Some(locked) = s.locked.first().copied() {
+        let r = output_ref(&s.chain, locked);
+        v.push(opdef("unlock", move |c, s| cls(guarded(|| wdb(c, s.net, 24).unlock_output(&r, LockOwner::new(PRE_OWNER))), |b| format!("{b}"))));
+        v.push(opdef("clear_locks", |c, s| cls(guarded(|| wdb(c, s.net, 24).clear_locked_outputs(s.account)), |n| format!("{n}"))));
+    }
+    let notes: Vec<u32> = lockable_notes(s).into_iter().filter(|n| !s.locked.contains(n)).collect();
     if notes.len() >= 3 {
         let refs: Vec<OutputRef> = notes.iter().take(3).map(|n| output_ref(&s.chain, *n)).collect();
         let r2 = refs.clone();
@@ -652,6 +745,10 @@ struct Runner<'a> {
     faults_with_pending_rows: u64,
     panics: u64,
     samples: Vec<Value>,
+    crash_images: u64,
+    err_after_commit: u64,
+    fault_absorbed_ok: u64,
+    reader_interleavings: u64,
 }
 
 impl Runner<'_> {
@@ -745,6 +842,13 @@ impl Runner<'_> {
         let end = json!({"a": "opend", "res": res, "detail": detail, "auto": auto, "dig": dig, "sum": sum, "wdig": wdig, "chg": chg, "steps": g.steps});
         self.out.emit(&end);
         self.execs += 1;
+        self.crash_images += g.ncrash as u64;
+        if res != "ok" && commits > 0 {
+            self.err_after_commit += 1;
+        }
+        if res == "ok" && g.fired {
+            self.fault_absorbed_ok += 1;
+        }
         if g.fired {
             self.faults_fired += 1;
             if g.rows_before_fault > 0 {
@@ -864,6 +968,10 @@ fn main() {
         faults_with_pending_rows: 0,
         panics: 0,
         samples: vec![],
+        crash_images: 0,
+        err_after_commit: 0,
+        fault_absorbed_ok: 0,
+        reader_interleavings: 0,
     };
     let mut groups = vec![];
     // static assignment of groups to shards, heaviest first (a scan costs ~40 ms of note-commitment hashing)
@@ -910,6 +1018,8 @@ fn main() {
     let stats = json!({
         "executions": rn.execs, "faults_fired": rn.faults_fired, "faults_with_pending_rows": rn.faults_with_pending_rows,
         "distinct_nontrivial": rn.nontrivial.len(), "panics": rn.panics, "groups": groups, "samples": rn.samples,
+        "crash_images": rn.crash_images, "err_after_commit": rn.err_after_commit, "fault_absorbed_ok": rn.fault_absorbed_ok,
+        "reader_interleavings": rn.reader_interleavings,
         "wall_ms": t0.elapsed().as_millis() as u64,
         "times_us": TIMES.with(|m| m.borrow().iter().map(|(k, (n, us))| json!([k, n, *us as u64])).collect::<Vec<_>>()),
     });
@@ -918,8 +1028,5 @@ fn main() {
         remove_db(&s.file);
     }
     println!("{}", serde_json::to_string(&json!({"events": n, "stats": stats})).unwrap());
-    let _ = (AccountPurpose::ViewOnly, ScanPriority::Historic);
-    let _: Option<CommitmentTreeRoot<sapling::Node>> = None;
-    fn _t<T: WalletCommitmentTrees>() {}
-    let _ = states.iter().map(|s| s.account).count();
+    fn _t<T: WalletCommitmentTrees + OutputLockStore>() {}
 }
